@@ -323,6 +323,16 @@ def gen(fam: str, k: int, tier: str) -> dict[str, Any]:
     if fam == "H":
         scn = histsim.gen_history_scenario(rng, cfg=cfgs[k % len(cfgs)], max_steps=2, clock_mode="plain")
         scn["hashseeds"] = hash_seeds(K)
+        # many entry points in a drawn order: several SCCs are ready in the same layer
+        plain = [m for m in sorted(scn["project"]["mods"]) if "." not in m]
+        rng.shuffle(plain)
+        scn["project"]["roots"] = plain[: max(1, rng.randint(len(plain) // 2, len(plain)))]
+        if "m0" not in scn["project"]["roots"]:
+            scn["project"]["roots"].append("m0")
+        if rng.random() < 0.6:
+            codes = rng.sample(["truthy-bool", "redundant-expr", "ignore-without-code", "possibly-undefined", "unused-awaitable", "explicit-override", "mutable-override", "unimported-reveal"], rng.randint(2, 5))
+            dis = rng.sample(["assignment", "attr-defined", "arg-type", "name-defined", "override", "no-redef", "call-arg"], rng.randint(2, 4))
+            scn["extra"] = [x for c in codes for x in ("--enable-error-code", c)] + [x for c in dis for x in ("--disable-error-code", c)]
         if k % 5 == 4:
             scn["par"] = {"workers": rng.choice([2, 3]), "sched_seed": rng.randrange(1 << 30), "policy": {}}
             scn["config"] = dict(histsim.STORE_CONFIGS[0])
@@ -358,7 +368,8 @@ def gen(fam: str, k: int, tier: str) -> dict[str, Any]:
                 m = rng.choice(sorted(p["mods"]))
                 p["mods"][m]["broken"] = True  # an earlier build that fails with a blocker
             kind = rng.choice(["main", "main", "api", "daemon"])
-            flags = rng.choice([[], ["--strict"], ["--disallow-any-expr"], ["--no-strict-optional"], ["--follow-imports=silent"]])
+            flags = rng.choice([[], ["--strict"], ["--disallow-any-expr"], ["--no-strict-optional"], ["--follow-imports=silent"],
+                                ["--python-version", "3.10"], ["--python-version", "3.13"], ["--python-version", "3.10", "--platform", "win32"]])
             pre.append({"project": p, "kind": kind, "flags": flags})
         scn["pre"] = pre
         return scn
